@@ -28,7 +28,7 @@ Inductive dfout :=
 Inductive dfop := DfCreate (r : dfreq) | DfUpdate (r : dfreq) | DfRead (r : dfreq) | DfDelete (r : dfreq).
 
 Definition blank_client (i : id) : client :=
-  mkClient i false [] [] [] "" CibaNone false false false false false false false 0 false.
+  mkClient i false [] [] [] "" CibaNone false false false false false false false 0 false None.
 
 (* dcr.protected *)
 Definition dcr_protected (w : world) (r : dfreq) : prog (option client) :=
